@@ -29,7 +29,7 @@ one() {
   fi
   out=$("$VERIF/bin/govc" -prop "$P" -repo "$S" -verif "$VERIF" -out "$S.out" -timeout 5 -j 4 2>&1); rc=$?
   # the labelled bounded stand-ins are part of ./check for these properties
-  if [ $rc -eq 0 ]; then
+  if [ $rc -ne 1 ]; then
     case "$P" in
       C07) bout=$(VERIF_OUT="$S.out" "$VERIF/bounded/c07/run.sh" quick "$S" 2>&1) || rc=1; out="$out"$'\n'"$bout";;
       C05|C06) bout=$(VERIF_OUT="$S.out" "$VERIF/bounded/idl/run.sh" "$P" quick "$S" 2>&1) || rc=1; out="$out"$'\n'"$bout";;
